@@ -750,7 +750,16 @@ func requestPartsOK(s Summary, u Event, reqBody *Term) (bool, string) {
 		return false, "the proof handed to the witness is not a list built from this request's proof lines (" + short(proof.String()) + ")"
 	}
 	for _, el := range els {
-		if !(el.Kind == "call" && strings.HasSuffix(el.Name, ".DecodeString") && mentions(el, reqBody) && producedOK(el)) {
+		decodedOK := el.Kind == "call" && strings.HasSuffix(el.Name, ".DecodeString") && mentions(el, reqBody) && producedOK(el)
+		if !decodedOK && el.Kind == "slice" && len(el.Args) == 3 {
+			// buf[:n] for n, err := enc.Decode(buf, line)
+			for _, dv := range calls(s, "(*encoding/base64.Encoding).Decode") {
+				if dv.Seq < u.Seq && isDecodedValue(el, dv) && mentions(dv.Args[1], reqBody) && okBefore(s, dv, u.Seq) {
+					decodedOK = true
+				}
+			}
+		}
+		if !decodedOK {
 			return false, "a proof element handed to the witness is not the successful base64 decoding of a line of this request (" + short(el.String()) + ")"
 		}
 	}
